@@ -5,6 +5,36 @@
 
 use hyphenate::{AsciiLowerCaser, Hyphenator};
 use reftex::liang::{self, ascii_lc, Liang, EDGE};
+
+// ---------------------------------------------------------------- a lower-case map beyond ASCII
+
+/// Letters of the mixed alphabet: 1-, 2-, 2- and 4-byte UTF-8, each with an upper-case partner.
+const MIXED_LOWER: [char; 4] = ['a', 'é', 'α', '𝐚'];
+const MIXED_UPPER: [char; 4] = ['A', 'É', 'Α', '𝐀'];
+
+/// The model's lower-case map: ASCII letters as `hyphenate::AsciiLowerCaser`, plus the mixed alphabet.
+fn lc_all(c: char) -> Option<char> {
+    if let Some(l) = ascii_lc(c) {
+        return Some(l);
+    }
+    if MIXED_LOWER.contains(&c) {
+        return Some(c);
+    }
+    MIXED_UPPER.iter().position(|u| *u == c).map(|i| MIXED_LOWER[i])
+}
+fn uc_all(c: char) -> char {
+    match MIXED_LOWER.iter().position(|l| *l == c) {
+        Some(i) => MIXED_UPPER[i],
+        None => c.to_ascii_uppercase(),
+    }
+}
+/// The same map as a `hyphenate::LowerCaser` (the trait is public; `AsciiLowerCaser` stops at non-ASCII).
+struct HarnessLowerCaser;
+impl hyphenate::LowerCaser for HarnessLowerCaser {
+    fn to_lower_case(&self, c: char) -> Option<char> {
+        lc_all(c)
+    }
+}
 use serde_json::{json, Value};
 use vcore::{catch, Acc, Ctx, Level};
 
@@ -16,13 +46,15 @@ struct Config {
     exceptions: Vec<String>,
     /// `insert_exception` calls come before `load_patterns` (both orders are legal in INITEX)
     exceptions_first: bool,
+    /// look words up with the harness lower-caser (letters beyond ASCII) instead of `AsciiLowerCaser`
+    mixed: bool,
 }
 
 impl Config {
     fn json(&self, word: &str) -> Value {
-        json!({"kind": "lookup", "patterns": self.patterns, "exceptions": self.exceptions, "exceptions_first": self.exceptions_first, "word": word,
-               "reproduce": format!("let mut h = hyphenate::Hyphenator::default(); {} h.calculate_indices(&hyphenate::AsciiLowerCaser::default(), {:?}).collect::<Vec<_>>()",
-                    self.build_text(), word)})
+        json!({"kind": "lookup", "patterns": self.patterns, "exceptions": self.exceptions, "exceptions_first": self.exceptions_first, "mixed_alphabet": self.mixed, "word": word,
+               "reproduce": format!("let mut h = hyphenate::Hyphenator::default(); {} h.calculate_indices(&{}, {:?}).collect::<Vec<_>>()",
+                    self.build_text(), if self.mixed { "L /* a LowerCaser with a/A, é/É, α/Α, 𝐚/𝐀 */" } else { "hyphenate::AsciiLowerCaser::default()" }, word)})
     }
     fn build_text(&self) -> String {
         let p = format!("h.load_patterns({:?});", self.patterns.join(" "));
@@ -60,10 +92,10 @@ impl Config {
     fn build_model(&self) -> Option<Liang> {
         let mut l = Liang::new();
         for p in &self.patterns {
-            l.add_pattern(p, &ascii_lc).ok()?;
+            l.add_pattern(p, &lc_all).ok()?;
         }
         for e in &self.exceptions {
-            if !l.add_exception(e, &ascii_lc) {
+            if !l.add_exception(e, &lc_all) {
                 return None;
             }
         }
@@ -106,6 +138,22 @@ fn expect(cfg: &Config, model: &Liang, wl: &[char], acc: &mut Acc) -> Expect {
         }
     }
     let text: String = wl.iter().collect();
+    if !text.is_ascii() {
+        // a pattern that is not anchored at the start matches after a multi-byte letter (character
+        // offset != byte offset) and puts a non-zero digit on an interior slot
+        for p in &model.patterns {
+            if p.key.first() == Some(&EDGE) {
+                continue;
+            }
+            let bare: Vec<char> = p.key.iter().copied().filter(|c| *c != EDGE).collect();
+            let end_anchored = p.key.last() == Some(&EDGE);
+            for s0 in 1..n.saturating_sub(bare.len()) + 1 {
+                if s0 + bare.len() <= n && wl[s0..s0 + bare.len()] == bare[..] && (!end_anchored || s0 + bare.len() == n) && wl[..s0].iter().any(|c| c.len_utf8() > 1) && p.digits.iter().enumerate().any(|(k, d)| *d != 0 && s0 + k >= 1 && s0 + k < n) {
+                    acc.count("pattern_starts_after_a_multibyte_letter");
+                }
+            }
+        }
+    }
     for (p, v) in model.patterns.iter().zip(&per) {
         let anchored = p.key.first() == Some(&EDGE) || p.key.last() == Some(&EDGE);
         let matched = v.iter().any(|d| *d != 0) || pattern_matches(p, wl);
@@ -162,13 +210,13 @@ fn expect(cfg: &Config, model: &Liang, wl: &[char], acc: &mut Acc) -> Expect {
     // entries without upper-case letters can ever be found.
     let mut d11c_adjusted = None;
     if let Some(e) = exc {
-        let written_upper = cfg.exceptions.iter().rev().find(|t| t.chars().filter(|c| *c != '-').map(|c| c.to_ascii_lowercase()).collect::<Vec<char>>() == e.letters).map(|t| t.chars().any(|c| c.is_ascii_uppercase())).unwrap_or(false);
+        let written_upper = cfg.exceptions.iter().rev().find(|t| t.chars().filter(|c| *c != '-').filter_map(lc_all).collect::<Vec<char>>() == e.letters).map(|t| t.chars().any(is_upper)).unwrap_or(false);
         if written_upper {
             let mut adj = Liang::new();
             adj.patterns = model.patterns.clone();
             for t in &cfg.exceptions {
-                if !t.chars().any(|c| c.is_ascii_uppercase()) {
-                    adj.add_exception(t, &ascii_lc);
+                if !t.chars().any(is_upper) {
+                    adj.add_exception(t, &lc_all);
                 }
             }
             let h = adj.hyf(wl);
@@ -187,6 +235,10 @@ fn as_set(mut got: Vec<usize>, acc: &mut Acc) -> Vec<usize> {
         got.dedup();
     }
     got
+}
+
+fn is_upper(c: char) -> bool {
+    c != '-' && lc_all(c) != Some(c)
 }
 
 fn pattern_matches(p: &liang::Pattern, wl: &[char]) -> bool {
@@ -219,12 +271,12 @@ fn check_config(idx: u64, cfg: &Config, words: &[(Vec<char>, Vec<String>)], acc:
             acc.eval();
             if ex.nontrivial {
                 acc.nontrivial();
-                if w.chars().any(|c| c.is_ascii_uppercase()) {
+                if w.chars().any(is_upper) {
                     acc.count("upper_case_word_nontrivial");
                 }
             }
             acc.class(&class);
-            match catch(|| real.calculate_indices(&lc, w).collect::<Vec<usize>>()) {
+            match catch(|| if cfg.mixed { real.calculate_indices(&HarnessLowerCaser, w).collect::<Vec<usize>>() } else { real.calculate_indices(&lc, w).collect::<Vec<usize>>() }) {
                 Err(p) => acc.fail(idx, cfg.json(w), format!("{:?}", ex.positions), p.describe(), "calculate_indices panicked"),
                 Ok(got) => {
                     // the statement speaks of a set of positions: order and repetition are recorded only
@@ -308,13 +360,13 @@ fn case_variants(wl: &[char], all: bool) -> Vec<String> {
     let len = wl.len();
     if !all || len > 10 {
         let lower: String = wl.iter().collect();
-        let upper = lower.to_ascii_uppercase();
-        let mixed: String = wl.iter().enumerate().map(|(i, c)| if i % 2 == 0 { c.to_ascii_uppercase() } else { *c }).collect();
+        let upper: String = wl.iter().map(|c| uc_all(*c)).collect();
+        let mixed: String = wl.iter().enumerate().map(|(i, c)| if i % 2 == 0 { uc_all(*c) } else { *c }).collect();
         let mut v = vec![lower, upper, mixed];
         v.dedup();
         return v;
     }
-    (0..(1u32 << len)).map(|u| wl.iter().enumerate().map(|(i, c)| if u >> i & 1 == 1 { c.to_ascii_uppercase() } else { *c }).collect()).collect()
+    (0..(1u32 << len)).map(|u| wl.iter().enumerate().map(|(i, c)| if u >> i & 1 == 1 { uc_all(*c) } else { *c }).collect()).collect()
 }
 
 /// Every `\hyphenation` entry for the words over {a,b} of length lo..=hi: each subset of the interior
@@ -344,12 +396,80 @@ fn exception_menu(lo: usize, hi: usize) -> Vec<String> {
     out
 }
 
+/// As `pattern_universe`, over an arbitrary letter set.
+fn pattern_universe_over(letters: &[char], maxlen: usize, menu: &[Option<u8>]) -> Vec<String> {
+    let k = letters.len() as u64;
+    let mut out = vec![];
+    for len in 1..=maxlen {
+        for li in 0..k.pow(len as u32) {
+            let ls = vcore::digits(li, &vec![k; len]);
+            for anchors in 0..4u32 {
+                let radices = vec![menu.len() as u64; len + 1];
+                for di in 0..vcore::product(&radices) {
+                    let d = vcore::digits(di, &radices);
+                    if d.iter().all(|x| menu[*x as usize].is_none()) {
+                        continue;
+                    }
+                    let mut p = String::new();
+                    if anchors & 1 == 1 {
+                        p.push('.');
+                    }
+                    for i in 0..len {
+                        if let Some(v) = menu[d[i] as usize] {
+                            p.push((b'0' + v) as char);
+                        }
+                        p.push(letters[ls[i] as usize]);
+                    }
+                    if let Some(v) = menu[d[len] as usize] {
+                        p.push((b'0' + v) as char);
+                    }
+                    if anchors & 2 == 2 {
+                        p.push('.');
+                    }
+                    out.push(p);
+                }
+            }
+        }
+    }
+    out
+}
+/// All words of length 1..=maxlen over `letters` (lower case), each with all its case variants.
+fn words_over(letters: &[char], maxlen: usize) -> Vec<(Vec<char>, Vec<String>)> {
+    let k = letters.len() as u64;
+    let mut out = vec![];
+    for len in 1..=maxlen {
+        for li in 0..k.pow(len as u32) {
+            let wl: Vec<char> = vcore::digits(li, &vec![k; len]).iter().map(|i| letters[*i as usize]).collect();
+            out.push((wl.clone(), case_variants(&wl, true)));
+        }
+    }
+    out
+}
+/// Every exception entry for the words over `letters` of length lo..=hi with every hyphen placement.
+fn exception_menu_over(letters: &[char], lo: usize, hi: usize) -> Vec<String> {
+    let mut out = vec![];
+    for (w, _) in words_over(letters, hi).into_iter().filter(|(w, _)| w.len() >= lo) {
+        for hm in 0..(1u32 << (w.len() - 1)) {
+            let mut s = String::new();
+            for (i, c) in w.iter().enumerate() {
+                if i > 0 && hm >> (i - 1) & 1 == 1 {
+                    s.push('-');
+                }
+                s.push(*c);
+            }
+            out.push(s);
+        }
+    }
+    out
+}
+
 /// The words worth looking up for an exception entry: every case variant of the word itself, and its
 /// neighbours (one letter more at either end, one letter less) to see that the entry does not leak.
 fn words_around(entry: &str) -> Vec<(Vec<char>, Vec<String>)> {
-    let w: Vec<char> = entry.chars().filter(|c| *c != '-').map(|c| c.to_ascii_lowercase()).collect();
+    let w: Vec<char> = entry.chars().filter(|c| *c != '-').filter_map(lc_all).collect();
     let mut out = vec![(w.clone(), case_variants(&w, true))];
-    for extra in ['a', 'b'] {
+    let extras = if w.iter().all(|c| c.is_ascii()) { ['a', 'b'] } else { ['a', 'é'] };
+    for extra in extras {
         let mut x = w.clone();
         x.push(extra);
         out.push((x.clone(), vec![x.iter().collect()]));
@@ -425,7 +545,7 @@ const NONE: Option<u8> = None;
 
 fn main() {
     let mut ctx = Ctx::new("C13", Level::Exploration);
-    ctx.assume("letters are ASCII and the lower-case map is hyphenate::AsciiLowerCaser (plain TeX's \\lccode restricted to ASCII); other LowerCaser implementations are not explored");
+    ctx.assume("lower-case maps explored: hyphenate::AsciiLowerCaser on ASCII letters, and one harness LowerCaser that adds the letters é/É, α/Α (2 bytes) and 𝐚/𝐀 (4 bytes); patterns and exception entries are written in lower case (an upper-case letter in an entry is finding D11c)");
     ctx.assume("pattern sets with two patterns on the same (anchored) letter string are outside the domain: TeX §963 rejects the second as \"Duplicate pattern\" (skipped and counted)");
     ctx.assume("patterns are well formed in the sense of TeX §962: letters, at most one digit per slot, \".\" only at the ends, no digit outside the dots; words contain letters only (a string with a non-letter is never a word, TeX §897)");
     ctx.assume("an exception entry with a leading or trailing hyphen is legal and the hyphen has no effect (TeX §938 records position 0 / n, §923 clears them)");
@@ -447,11 +567,11 @@ fn main() {
         let strs = |v: &Value| -> Vec<String> { v.as_array().map(|a| a.iter().filter_map(|x| x.as_str().map(String::from)).collect()).unwrap_or_default() };
         let case = if case["case"].is_object() { case["case"].clone() } else { case };
         let word = case["word"].as_str().unwrap_or("").to_string();
-        let wl: Vec<char> = word.chars().map(|c| c.to_ascii_lowercase()).collect();
+        let wl: Vec<char> = word.chars().filter_map(lc_all).collect();
         if case["kind"] == "plain" {
             check_plain(0, &plain, &plain_patterns, &plain_exceptions, &[(wl, vec![word])], &mut acc);
         } else {
-            let cfg = Config { patterns: strs(&case["patterns"]), exceptions: strs(&case["exceptions"]), exceptions_first: case["exceptions_first"].as_bool().unwrap_or(false) };
+            let cfg = Config { patterns: strs(&case["patterns"]), exceptions: strs(&case["exceptions"]), exceptions_first: case["exceptions_first"].as_bool().unwrap_or(false), mixed: case["mixed_alphabet"].as_bool().unwrap_or(false) };
             check_config(0, &cfg, &[(wl, vec![word])], &mut acc);
         }
         ctx.finish_replay(acc);
@@ -532,7 +652,7 @@ fn main() {
         let (u, ex, around) = (&u, &ex, &around);
         ctx.family("exception-vs-pattern", &format!("(no pattern or one of the {} patterns with 1..3 letters, digits {{none,1,2,3,8,9}}) x one of the {} exception entries (every word of length 2..{} over {{a,b}} with every hyphen placement, plus leading/trailing hyphen) x the entry's word in every letter case and its 6 neighbours (one letter more/less at either end)", nu - 1, ne, ctx.pick(3, 4)), nu * ne, |idx, acc| {
             let (pi, ei) = ((idx / ne) as usize, (idx % ne) as usize);
-            let cfg = Config { patterns: if u[pi].is_empty() { vec![] } else { vec![u[pi].clone()] }, exceptions: vec![ex[ei].clone()], exceptions_first: false };
+            let cfg = Config { patterns: if u[pi].is_empty() { vec![] } else { vec![u[pi].clone()] }, exceptions: vec![ex[ei].clone()], exceptions_first: false, mixed: false };
             check_config(idx, &cfg, &around[ei], acc);
             if idx % 99991 == 23 {
                 acc.sample(idx, || json!({"patterns": cfg.patterns, "exceptions": cfg.exceptions}));
@@ -557,7 +677,7 @@ fn main() {
             if j <= i {
                 return;
             }
-            let cfg = Config { patterns: vec![u[i as usize].clone(), u[j as usize].clone()], exceptions: vec![ex[ei].clone()], exceptions_first: false };
+            let cfg = Config { patterns: vec![u[i as usize].clone(), u[j as usize].clone()], exceptions: vec![ex[ei].clone()], exceptions_first: false, mixed: false };
             check_config(idx, &cfg, &around[ei], acc);
         });
     }
@@ -569,7 +689,7 @@ fn main() {
         let (ex, pats) = (&ex, &pats);
         ctx.family("exception-lists-of-two", &format!("every ordered pair of the {ne} exception entries (length 2..{}) x {np} pattern sets of size <= 1 x both entries' words in every case and their neighbours", ctx.pick(3, 4)), ne * ne * np, |idx, acc| {
             let (a, b, pi) = ((idx / (ne * np)) as usize, (idx / np % ne) as usize, (idx % np) as usize);
-            let cfg = Config { patterns: if pats[pi].is_empty() { vec![] } else { vec![pats[pi].clone()] }, exceptions: vec![ex[a].clone(), ex[b].clone()], exceptions_first: false };
+            let cfg = Config { patterns: if pats[pi].is_empty() { vec![] } else { vec![pats[pi].clone()] }, exceptions: vec![ex[a].clone(), ex[b].clone()], exceptions_first: false, mixed: false };
             let strip = |s: &str| s.replace('-', "");
             if strip(&ex[a]) == strip(&ex[b]) && ex[a] != ex[b] {
                 acc.count("same_word_entered_twice");
@@ -659,7 +779,7 @@ fn main() {
         let (longs, shorts, excs) = (&longs, &shorts, &excs);
         ctx.family("long-with-short", &format!("{nl} long patterns (L = 16,17,32) x {ns} patterns with 1..2 letters (digits {{none,2,9}}) x {ne} exception lists (none, 17 letters, 32 letters, 20 letters without hyphen) x the long-pattern words"), nl * ns * ne, |idx, acc| {
             let (li, si, ei) = ((idx / (ns * ne)) as usize, (idx / ne % ns) as usize, (idx % ne) as usize);
-            let cfg = Config { patterns: vec![longs[li].clone(), shorts[si].clone()], exceptions: if excs[ei].is_empty() { vec![] } else { vec![excs[ei].clone()] }, exceptions_first: false };
+            let cfg = Config { patterns: vec![longs[li].clone(), shorts[si].clone()], exceptions: if excs[ei].is_empty() { vec![] } else { vec![excs[ei].clone()] }, exceptions_first: false, mixed: false };
             check_config(idx, &cfg, words, acc);
         });
     }
@@ -713,7 +833,7 @@ fn main() {
         let (cased, pats) = (&cased, &pats);
         ctx.family("exception-entry-case", &format!("{ne} exception entries of length 2..3 with at least one upper-case letter x {np} pattern sets of size <= 1 x the word in every case and its neighbours"), ne * np, |idx, acc| {
             let (ei, pi) = ((idx / np) as usize, (idx % np) as usize);
-            let cfg = Config { patterns: if pats[pi].is_empty() { vec![] } else { vec![pats[pi].clone()] }, exceptions: vec![cased[ei].clone()], exceptions_first: false };
+            let cfg = Config { patterns: if pats[pi].is_empty() { vec![] } else { vec![pats[pi].clone()] }, exceptions: vec![cased[ei].clone()], exceptions_first: false, mixed: false };
             acc.count("exception_entry_with_upper_case_letter");
             check_config(idx, &cfg, &words_around(&cased[ei]), acc);
         });
@@ -724,11 +844,51 @@ fn main() {
         let (u, ex, around) = (&u, &ex, &around);
         ctx.family("exceptions-before-patterns", &format!("as exception-vs-pattern ({} patterns with 1..{} letters x {ne} entries of length 2..3), but insert_exception is called before load_patterns", nu - 1, ctx.pick(2, 3)), nu * ne, |idx, acc| {
             let (pi, ei) = ((idx / ne) as usize, (idx % ne) as usize);
-            let cfg = Config { patterns: if u[pi].is_empty() { vec![] } else { vec![u[pi].clone()] }, exceptions: vec![ex[ei].clone()], exceptions_first: true };
+            let cfg = Config { patterns: if u[pi].is_empty() { vec![] } else { vec![u[pi].clone()] }, exceptions: vec![ex[ei].clone()], exceptions_first: true, mixed: false };
             check_config(idx, &cfg, &around[ei], acc);
         });
     }
 
+    // F9: letters beyond ASCII (character offset != byte offset), looked up with the harness lower-caser
+    {
+        let u = pattern_universe_over(&MIXED_LOWER, 2, &pair_menu);
+        let words = words_over(&MIXED_LOWER, ctx.pick(4, 5));
+        let nw: usize = words.iter().map(|w| w.1.len()).sum();
+        let (u, words) = (&u, &words);
+        ctx.family("mixed-single-pattern", &format!("each of the {} patterns with 1..2 letters over {{a, é, α, 𝐚}} (1-, 2-, 2- and 4-byte letters), anchors, digits {{none,1,2,9}} x all {} words of length 1..{} over these letters and their upper-case partners {{A, É, Α, 𝐀}}, looked up with a harness LowerCaser", u.len(), nw, ctx.pick(4, 5)), u.len() as u64, |i, acc| {
+            let cfg = Config { patterns: vec![u[i as usize].clone()], mixed: true, ..Default::default() };
+            check_config(i, &cfg, words, acc);
+            if i % 997 == 5 {
+                acc.sample(i, || json!({"patterns": cfg.patterns}));
+            }
+        });
+        let three = [MIXED_LOWER[0], MIXED_LOWER[1], MIXED_LOWER[3]];
+        let up = pattern_universe_over(&three, 2, &ctx.pick(vec![NONE, Some(1)], vec![NONE, Some(1), Some(2)]));
+        let pwords = words_over(&three, ctx.pick(3, 4));
+        let k = up.len() as u64;
+        let (up, pwords) = (&up, &pwords);
+        ctx.family("mixed-pattern-pairs", &format!("every unordered pair from the {k} patterns with 1..2 letters over {{a, é, 𝐚}}, anchors, digits {} (index space {k}^2) x all words of length 1..{} over these letters in both cases", ctx.pick("{none,1}", "{none,1,2}"), ctx.pick(3, 4)), k * k, |idx, acc| {
+            let (i, j) = (idx / k, idx % k);
+            if j <= i {
+                return;
+            }
+            let cfg = Config { patterns: vec![up[i as usize].clone(), up[j as usize].clone()], mixed: true, ..Default::default() };
+            check_config(idx, &cfg, pwords, acc);
+        });
+        let mut ue = vec![String::new()];
+        ue.extend(pattern_universe_over(&three, 2, &pair_menu));
+        let ex = exception_menu_over(&three, 2, 3);
+        let around: Vec<Vec<(Vec<char>, Vec<String>)>> = ex.iter().map(|e| words_around(e)).collect();
+        let (nu, ne) = (ue.len() as u64, ex.len() as u64);
+        let (ue, ex, around) = (&ue, &ex, &around);
+        ctx.family("mixed-exception-vs-pattern", &format!("(no pattern or one of the {} patterns with 1..2 letters over {{a, é, 𝐚}}, digits {{none,1,2,9}}) x one of the {ne} exception entries of length 2..3 over these letters with every hyphen placement x the entry's word in every case and its neighbours", nu - 1), nu * ne, |idx, acc| {
+            let (pi, ei) = ((idx / ne) as usize, (idx % ne) as usize);
+            let cfg = Config { patterns: if ue[pi].is_empty() { vec![] } else { vec![ue[pi].clone()] }, exceptions: vec![ex[ei].clone()], exceptions_first: false, mixed: true };
+            check_config(idx, &cfg, &around[ei], acc);
+        });
+    }
+
+    ctx.require("pattern_starts_after_a_multibyte_letter", "a pattern not anchored at the start matches after a multi-byte letter and scores an interior slot");
     ctx.require("two_patterns_score_same_slot", "two patterns put a non-zero digit on the same slot of the word (the maximum decides)");
     ctx.require("even_digit_inhibits_odd", "an even maximum suppresses an odd digit of another pattern (or alignment)");
     ctx.require("anchored_pattern_matches", "a pattern anchored with '.' matches at the word edge");
